@@ -37,21 +37,20 @@ theorem C05_peak_load_window_one_load_call (ops : BatOps α B) (law : BatLaw ops
   obtain ⟨pv, hpv, cs, h1, _, _, _, h5, _⟩ := stepGc_commands ops law env w g level w' cmds h kv hkv
   exact ⟨pv, hpv, h1, h5⟩
 
-/-- **Station maximum, when the connector has no surplus.**  If the connector's loads before the step (fixed load −
-generation) do not sum to a surplus, every command is at most what the station can still give,
-`max(0, cs.max_power − cs.current_power)` (`cs.max_power` is the CONCURRENCY-scaled maximum).
+/-- **Station maximum.**  Every command is at most what the station can still give,
+`max(0, cs.max_power − cs.current_power)` (`cs.max_power` is the CONCURRENCY-scaled maximum) — with or without a
+generation surplus at the connector.
 
-`_partial`: the hypothesis `0 ≤ sum(loads)` excludes exactly the situation of the known finding
-`C05:station_limit:peak_load_window:charge` (D6): with a surplus, `vehicle.schedule -= min(timesteps[0]["power"], 0)`
-adds the WHOLE surplus to the planned power of EVERY vehicle without clamping to the station; the witness below
-exceeds a 3.7 kW station by 1.3 kW. -/
-theorem C05_peak_load_window_station_max_partial (ops : BatOps α B) (law : BatLaw ops)
+This is a theorem about the REPAIRED final loop (fixes/PLW2.diff): the surplus is handed out through `clamp_power`.
+On the pinned code (`vehicle.schedule -= min(timesteps[0]["power"], 0)`, finding D6, key
+`C05:station_limit:peak_load_window:charge`) it held only without surplus. -/
+theorem C05_peak_load_window_station_max (ops : BatOps α B) (law : BatLaw ops)
     (env : PEnv α) (w w' : PWorld α B) (g : PGc α) (level : String) (cmds : List (String × α))
-    (h : stepGc ops env w g level = .ok (w', cmds)) (hs : 0 ≤ sumLoads env g.gc.loads) :
+    (h : stepGc ops env w g level = .ok (w', cmds)) :
     ∀ kv ∈ cmds, ∃ cs, w.station? kv.1 = some cs ∧ kv.2 ≤ max 0 (cs.maxPower - cs.currentPower) := by
   intro kv hkv
   obtain ⟨pv, hpv, cs, _, h2, _, _, _, h6⟩ := stepGc_commands ops law env w g level w' cmds h kv hkv
-  exact ⟨cs, h2, h6 hs⟩
+  exact ⟨cs, h2, h6⟩
 
 /-- **The whole step.**  `PeakLoadWindow.step` (all connectors in dict order, each `step_gc` working on the world the
 previous ones left): every command is non-negative — no vehicle is ever discharged — and addresses a charging station
@@ -65,17 +64,16 @@ theorem C05_peak_load_window_step_never_discharges (ops : BatOps α B) (law : Ba
 example : cmdsOf (step (toyOps 10 11) exEnv (exWorld [("load", 2)] 11 (1/2) 1 2)) = [("cs1", 5/2)] := by
   decide +kernel
 
-/-- non-vacuity (all three theorems): fixed load 2 kW, an 11 kW station, a vehicle that needs 5 kWh within two
+/-- non-vacuity (the `step_gc` theorems): fixed load 2 kW, an 11 kW station, a vehicle that needs 5 kWh within two
 hours outside any window → one command of 2.5 kW -/
 example : cmdsOf (stepGc (toyOps 10 11) exEnv (exWorld [("load", 2)] 11 (1/2) 1 2) (exGc [("load", 2)]) "MV")
     = [("cs1", 5/2)] ∧ (0 : ℚ) ≤ sumLoads exEnv (exGc [("load", 2)]).gc.loads := by
   decide +kernel
 
-/-- **witness of the excluded situation (the code's behaviour, finding D6):** 20 kW generation surplus, a 3.7 kW
-station, a vehicle that has already reached its desired SoC 0.5: the whole surplus is offered, the vehicle
-takes 5 kW through the 3.7 kW station -/
+/-- the situation of finding D6 on the repaired loop: 20 kW generation surplus, a 3.7 kW station, a vehicle that has
+already reached its desired SoC 0.5: it is offered the surplus through `clamp_power` and takes 3.7 kW (pinned code: 5 kW) -/
 example : cmdsOf (stepGc (toyOps 10 11) exEnv (exWorld [("pv", -20)] (37/10) (1/2) (1/2) 2) (exGc [("pv", -20)]) "MV")
-    = [("cs1", 5)] ∧ sumLoads exEnv (exGc [("pv", -20)]).gc.loads < 0 := by
+    = [("cs1", 37/10)] ∧ sumLoads exEnv (exGc [("pv", -20)]).gc.loads < 0 := by
   decide +kernel
 
 end SpiceEv
